@@ -140,6 +140,11 @@ Roots(fr) ==
   \* a wrapper used twice / two wrappers of one child / nested wrappers in one call
   \cup { N("Sum", << CP(N("Sum", << x, y >>), "u"), N("Product", << CP(N("Sum", << x, y >>), "u"), A >>) >>),
          N("Product", << CSE0(A), CP(N("Sum", << CSE0(A), z >>), "u") >>) }
+  \* the a + -1*b => a - b rewrite over every kind of b (and b*c), on either side
+  \cup { N("Sum", << L2, N("Product", << M1, A >>) >>), N("Sum", << N("Product", << M1, A >>), L2 >>),
+         N("Sum", << L2, N("Product", << M1, A, L2 >>) >>),
+         N("Sum", << N("Product", << M1, L2 >>), N("Product", << M1, A >>) >>) }
+  \cup (IF fr = "flt" THEN { N("Sum", << L2, N("Product", << K(FltV(-1, 1)), A >>) >>) } ELSE {})
   \cup Leaves(fr)
   \cup (IF fr = "int"
         THEN UNION { { B(k, p[1], p[2]) : p \in Pairs(k) } : k \in {"FloorDiv", "Remainder", "LShift", "RShift"} }
